@@ -101,8 +101,8 @@ def classify(desc, prop_name, srcfile, g):
     if ".unwind." in prop_name or "unwinding assertion" in desc:
         return "A", g.props, desc
     if re.search(r"\.(pointer_dereference|bounds|pointer_arithmetic|pointer_primitives|overflow|"
-                 r"array_bounds|pointer|division-by-zero|undefined-shift|memory-leak)\.", "." + prop_name + ".") \
-            or "dereference failure" in desc or "bounds" in desc:
+                 r"array_bounds|pointer|division-by-zero|undefined-shift|memory-leak|precondition_instance)\.", "." + prop_name + ".") \
+            or "dereference failure" in desc or "bounds" in desc or "region readable" in desc or "region writeable" in desc:
         return g.safety, g.props, desc
     return "A", g.props, desc
 
